@@ -37,6 +37,18 @@ var c02Reqs = []harness.ReqSpec{
 	{Tag: "i", Method: "PUT", Path: "/i", Stream: [][]byte{[]byte("one"), []byte("byte")}, Declared: -1, OneByte: true},
 	{Tag: "j", Method: "PUT", Path: "/j", Stream: [][]byte{[]byte(valOfLen(16384)), []byte(valOfLen(16385))}, Declared: 32769, EOFWithLast: true},
 	{Tag: "k", Method: "PUT", Path: "/k", Stream: [][]byte{[]byte("x")}, Declared: 1, OneByte: true, EOFWithLast: true},
+	// 11-13: uploads larger than a small stream window, each with its own filler octet
+	{Tag: "ua", Method: "PUT", Path: "/ua", Stream: [][]byte{bytesOf('A', 3000)}, Declared: 3000},
+	{Tag: "ub", Method: "PUT", Path: "/ub", Stream: [][]byte{bytesOf('B', 1700), bytesOf('b', 1300)}, Declared: -1},
+	{Tag: "uc", Method: "POST", Path: "/uc", Body: bytesOf('C', 3000)},
+}
+
+func bytesOf(c byte, n int) []byte {
+	b := make([]byte, n)
+	for i := range b {
+		b[i] = c
+	}
+	return b
 }
 
 type c02Resp struct {
@@ -50,6 +62,8 @@ type c02Resp struct {
 	EmptyES bool        `json:"end_on_empty_data"`
 	// Trailers: the response ends with a trailer section (a HEADERS frame with END_STREAM after the body)
 	Trailers bool `json:"trailers,omitempty"`
+	// TrailerSplit > 0: the trailer block is cut into HEADERS(END_STREAM) + CONTINUATION(END_HEADERS) at that offset
+	TrailerSplit int `json:"trailer_split,omitempty"`
 }
 
 type c02Scenario struct {
@@ -57,6 +71,10 @@ type c02Scenario struct {
 	Resps  []c02Resp `json:"resps"`
 	Order  []int     `json:"order,omitempty"` // interleaving of response frame tracks
 	Family string    `json:"family"`
+	// InitWin > 0: the server advertises this SETTINGS_INITIAL_WINDOW_SIZE, uploads block on it and
+	// Grants (request index, increment) are the stream WINDOW_UPDATEs it then sends, in this order
+	InitWin uint32   `json:"initial_window,omitempty"`
+	Grants  [][2]int `json:"grants,omitempty"`
 }
 
 func c02Body(spec harness.ReqSpec) []byte {
@@ -197,7 +215,7 @@ func checkDelivered(call *harness.CCall, r c02Resp) (string, string) {
 		}
 	}
 	for n, vs := range have {
-		if n == "content-type" || n == "content-length" || n == "server" || n == "date" || n == "x-trailer" && r.Trailers {
+		if n == "content-type" || n == "content-length" || n == "server" || n == "date" || (n == "x-trailer" || n == "x-trailer-2") && r.Trailers {
 			continue
 		}
 		ok := false
@@ -291,8 +309,13 @@ func (r c02Resp) track(sc *harness.SrvConn, id uint32) []tframe {
 					frs[i].Flags &^= peer.FEndStream
 				}
 			}
-			blk := sc.Enc.Block([]ref.Field{{Name: "x-trailer", Value: "t"}}, nil)
-			frs = append(frs, peer.Headers(id, blk, peer.HeadersOpt{EndStream: true, EndHeaders: true, Pad: -1}))
+			blk := sc.Enc.Block([]ref.Field{{Name: "x-trailer", Value: "t"}, {Name: "x-trailer-2", Value: "u"}}, nil)
+			if r.TrailerSplit > 0 {
+				cut := min(r.TrailerSplit-1, len(blk))
+				frs = append(frs, peer.Headers(id, blk[:cut], peer.HeadersOpt{EndStream: true, Pad: -1}), peer.Continuation(id, blk[cut:], true))
+			} else {
+				frs = append(frs, peer.Headers(id, blk, peer.HeadersOpt{EndStream: true, EndHeaders: true, Pad: -1}))
+			}
 		}
 	}
 	var tr []tframe
@@ -309,9 +332,14 @@ func (r c02Resp) track(sc *harness.SrvConn, id uint32) []tframe {
 	if r.Trailers {
 		nd++
 	}
+	lastCont := false
+	if r.Trailers && r.TrailerSplit > 0 {
+		nd++
+		lastCont = true
+	}
 	for i := 0; i < n+nd; i++ {
 		i := i
-		tr = append(tr, tframe{cont: i > 0 && i < n, f: func() []peer.Frame {
+		tr = append(tr, tframe{cont: i > 0 && i < n || lastCont && i == n+nd-1, f: func() []peer.Frame {
 			build()
 			return []peer.Frame{frs[i]}
 		}})
@@ -320,7 +348,11 @@ func (r c02Resp) track(sc *harness.SrvConn, id uint32) []tframe {
 }
 
 func c02Run(sc c02Scenario) (*fw.Violation, *harness.Client) {
-	h := harness.NewClient(harness.ClientOpts{})
+	var opts harness.ClientOpts
+	if sc.InitWin > 0 {
+		opts.ServerSettings = []peer.Setting{{ID: peer.SInitialWindowSize, Val: sc.InitWin}}
+	}
+	h := harness.NewClient(opts)
 	mk := func(rule, shape, detail string) *fw.Violation {
 		return &fw.Violation{Rule: rule, Shape: shape, Detail: detail + "\n    events: " + strings.Join(h.EventLog, " ; "), Replay: map[string]any{"family": "c02", "scenario": sc}}
 	}
@@ -335,11 +367,23 @@ func c02Run(sc c02Scenario) (*fw.Violation, *harness.Client) {
 	if len(srv.ProtoErrs) > 0 || srv.HpackErr != "" {
 		return mk("request-framing-invalid", "framing", strings.Join(srv.ProtoErrs, "; ")+" "+srv.HpackErr), h
 	}
-	// each request on the next odd id, intact
+	// the server's grants to uploads that are waiting for credit
+	for _, g := range sc.Grants {
+		if g[0] < len(srv.Order) {
+			h.Send(0, peer.WindowUpdate(srv.Order[g[0]], uint32(g[1])))
+		}
+	}
+	// each request on a fresh odd id above every earlier one, intact (callers start one after the
+	// other, each run to quiescence, so the i-th stream opened belongs to the i-th request)
+	ids := make([]uint32, len(sc.Reqs))
 	for i, ri := range sc.Reqs {
-		id := uint32(2*i + 1)
-		if i >= len(srv.Order) || srv.Order[i] != id {
-			return mk("stream-id-allocation", "ids", fmt.Sprintf("request %d expected on stream %d; streams opened: %v", i, id, srv.Order)), h
+		if i >= len(srv.Order) {
+			return mk("stream-id-allocation", "ids", fmt.Sprintf("request %d never opened a stream; streams opened: %v", i, srv.Order)), h
+		}
+		id := srv.Order[i]
+		ids[i] = id
+		if id%2 == 0 || id == 0 || i > 0 && id <= srv.Order[i-1] {
+			return mk("stream-id-allocation", "ids", fmt.Sprintf("request %d on stream %d: not a fresh odd id above the earlier ones; streams opened: %v", i, id, srv.Order)), h
 		}
 		if d, cls := checkSentRequest(c02Reqs[ri], srv.Streams[id]); d != "" {
 			return mk("request-not-intact", cls+" req="+c02Reqs[ri].Tag, fmt.Sprintf("request %q on stream %d: %s", c02Reqs[ri].Tag, id, d)), h
@@ -351,7 +395,7 @@ func c02Run(sc c02Scenario) (*fw.Violation, *harness.Client) {
 	// the script answers
 	tracks := make([][]tframe, len(sc.Resps))
 	for i, r := range sc.Resps {
-		tracks[i] = r.track(srv, uint32(2*i+1))
+		tracks[i] = r.track(srv, ids[i])
 	}
 	order := sc.Order
 	if order == nil {
@@ -376,7 +420,7 @@ func c02Run(sc c02Scenario) (*fw.Violation, *harness.Client) {
 	}
 	for i, r := range sc.Resps {
 		if d, cls := checkDelivered(calls[i], r); d != "" {
-			return mk("response-not-delivered-intact", cls+" "+r.shape(), fmt.Sprintf("caller %q (stream %d, %s): %s", c02Reqs[sc.Reqs[i]].Tag, 2*i+1, r.shape(), d)), h
+			return mk("response-not-delivered-intact", cls+" "+r.shape(), fmt.Sprintf("caller %q (stream %d, %s): %s", c02Reqs[sc.Reqs[i]].Tag, ids[i], r.shape(), d)), h
 		}
 		if calls[i].Resolved != 1 {
 			return mk("resolved-more-than-once", "resolve", fmt.Sprintf("caller %q: RoundTrip returned %d times", c02Reqs[sc.Reqs[i]].Tag, calls[i].Resolved)), h
@@ -445,6 +489,16 @@ func runC02(c *fw.Ctx) {
 		do(c02Scenario{Family: "response-encoding", Reqs: []int{0}, Resps: []c02Resp{rt}})
 		rt.Body = ""
 		do(c02Scenario{Family: "response-encoding", Reqs: []int{0}, Resps: []c02Resp{rt}})
+		// no body at all: END_STREAM is on the HEADERS frame, END_HEADERS on the CONTINUATION
+		rb := r
+		rb.Body = ""
+		do(c02Scenario{Family: "response-encoding", Reqs: []int{0}, Resps: []c02Resp{rb}})
+		// trailer section cut into HEADERS(END_STREAM) + CONTINUATION
+		if off >= 1 && off <= 30 {
+			rs := base
+			rs.Trailers, rs.TrailerSplit = true, off
+			do(c02Scenario{Family: "response-encoding", Reqs: []int{0}, Resps: []c02Resp{rs}})
+		}
 		if thorough {
 			for off2 := off; off2 <= blockLen; off2 += 3 {
 				r2 := base
@@ -517,6 +571,33 @@ func runC02(c *fw.Ctx) {
 		})
 	}
 	c.Family("concurrent")
+
+	// family: concurrent uploads held up by a small stream window; every order of the server's grants
+	for _, set := range [][]int{{11, 12}, {12, 11}, {11, 13}, {13, 12}, {11, 12, 13}} {
+		if len(set) == 3 && !thorough {
+			continue
+		}
+		var resps []c02Resp
+		lens := make([]int, len(set))
+		for i := range set {
+			resps = append(resps, defaultResp(fmt.Sprint(i)))
+			lens[i] = 2
+		}
+		for _, win := range []uint32{1000, 1} {
+			inc := [][]int{{700, 2300}, {1200, 1800}, {2999, 1}}
+			harness.Interleavings(lens, func(order []int) bool {
+				var grants [][2]int
+				seen := make([]int, len(set))
+				for _, t := range order {
+					grants = append(grants, [2]int{t, inc[t][seen[t]]})
+					seen[t]++
+				}
+				do(c02Scenario{Family: "uploads-under-flow-control", Reqs: set, Resps: resps, InitWin: win, Grants: grants})
+				return !c.Expired("C02 uploads")
+			})
+		}
+	}
+	c.Family("uploads-under-flow-control")
 }
 
 func replayC02(raw json.RawMessage) (string, bool) {
